@@ -10,6 +10,8 @@ def collect(ctx):
     vecs = kernel.tlc_gen(ctx, "GenFasta", "GenFasta.cfg" if ctx.quick else "GenFasta_thorough.cfg", timeout=3000)
     vecs += kernel.rand_vectors(ctx, "fasta", 1500 if ctx.quick else 30000)
     vecs += buffer_edge_vectors(ctx)
+    long_line = ">s1\nACGTACGTAC\n>s2\n" + "ACGT" * 270000 + "\n>s3\nACGTACGTAC\n"
+    vecs.append({"id": "line-over-1MiB-in-second-record", "raw": [ord(ch) for ch in long_line]})
     return kernel.run_vectors(ctx, "fasta", vecs, timeout=6000)
 
 
